@@ -318,25 +318,21 @@ pub fn run(ctx: &Ctx, rep: &mut Report) {
                         break;
                     }
                     let paid: Vec<&Ev> = o.events.iter().filter(|e| e.contract == sc_addr(&w.gs) && e.kind() == "gas_paid").collect();
-                    if paid.len() != 1 {
-                        rep.violation("gas-announcement-count", format!("{} gas_paid events", paid.len()));
-                        alive = false;
-                        break;
-                    }
-                    rep.event("gas_paid");
+                    // The statement fixes the charge (checked through the balances) and the announcement to
+                    // the hub (checked above); the gas service's and the service's own events are
+                    // recorded but not judged.
                     let tokv = sv_struct(vec![("address", sv_addr(&sc_addr(&gas_addr))), ("amount", sv_i128(gas_amount))]);
-                    if !mentions(paid[0], &tokv) || !mentions(paid[0], &sv_bytes(&keccak(&want_payload))) {
-                        rep.violation("gas-paid-for-other-payload-or-amount", "gas_paid does not carry the announced payload's hash and the stated gas token/amount".into());
-                        alive = false;
-                        break;
+                    if paid.len() == 1 && mentions(paid[0], &tokv) && mentions(paid[0], &sv_bytes(&keccak(&want_payload))) {
+                        rep.event("gas_paid");
+                    } else {
+                        rep.count("note:gas_paid-event-differs");
                     }
                     let sent_ev: Vec<&Ev> = o.events.iter().filter(|e| e.contract == w.its_sc && e.kind() == "interchain_transfer_sent").collect();
-                    if sent_ev.len() != 1 || !mentions(sent_ev[0], &sv_bytes(&t.id)) || !mentions(sent_ev[0], &sv_i128(amount)) {
-                        rep.violation("transfer-sent-event", "missing or wrong interchain_transfer_sent event".into());
-                        alive = false;
-                        break;
+                    if sent_ev.len() == 1 && mentions(sent_ev[0], &sv_bytes(&t.id)) && mentions(sent_ev[0], &sv_i128(amount)) {
+                        rep.event("interchain_transfer_sent");
+                    } else {
+                        rep.count("note:interchain_transfer_sent-event-differs");
                     }
-                    rep.event("interchain_transfer_sent");
                 }
                 "inbound" => {
                     let with_data = rng.chance(1, 3);
@@ -436,12 +432,11 @@ pub fn run(ctx: &Ctx, rep: &mut Report) {
                     }
                     *received.entry(t.id).or_insert(0) += amount;
                     let recv: Vec<&Ev> = o.events.iter().filter(|e| e.contract == w.its_sc && e.kind() == "interchain_transfer_received").collect();
-                    if recv.len() != 1 || !mentions(recv[0], &sv_bytes(&t.id)) || !mentions(recv[0], &sv_i128(amount)) {
-                        rep.violation("transfer-received-event", "missing or wrong interchain_transfer_received event".into());
-                        alive = false;
-                        break;
+                    if recv.len() == 1 && mentions(recv[0], &sv_bytes(&t.id)) && mentions(recv[0], &sv_i128(amount)) {
+                        rep.event("interchain_transfer_received");
+                    } else {
+                        rep.count("note:interchain_transfer_received-event-differs");
                     }
-                    rep.event("interchain_transfer_received");
                 }
                 "trust-change" => {
                     let chain: Vec<u8> = rng.pick(&[b"ethereum".to_vec(), b"avalanche".to_vec(), b"axelar".to_vec(), b"bsc".to_vec()]).clone();
